@@ -601,6 +601,7 @@ def star_stage(ctx: vlib.Ctx, exe: str | None) -> None:
     cp_full = [rt(cs, ns_full) for cs in srcs]
     cp_abs = [rt(cs, ns_abs) if (c[3] is not None and c[3][1]) else cp_full[i] for i, (cs, c) in enumerate(zip(srcs, cases))]
     flags = star_model(ctx, exe, sigs, cases, srcs, mypy_ok, cp_full)
+    nother = 0
     rejected = 0
     scen_dep = 0
     nviol = 0
@@ -619,8 +620,10 @@ def star_stage(ctx: vlib.Ctx, exe: str | None) -> None:
         cls = star_class(sigs[si], ps, ks, td, mypy_ok[i], cp_full[i][1], flags[i] if flags else None)
         classes[cls] = classes.get(cls, 0) + 1
         key = f"bind-star:{cls}" if cls != "other" else f"bind-star:{d}:{cs}"
-        if cls == "other" and nviol > MAX_REPORTED * 4:
-            continue
+        if cls == "other":
+            nother += 1
+            if nother > MAX_REPORTED:
+                continue
         ctx.violation(key,
                       f"`{d}` called as `{cs}`" + (f" (TypedDict required {td[0]}, optional {td[1]})" if td else "") +
                       f": mypy {'accepts' if mypy_ok[i] else 'rejects ' + repr(err_lines.get(line_of[i]))}, "
@@ -631,6 +634,7 @@ def star_stage(ctx: vlib.Ctx, exe: str | None) -> None:
     ctx.cov["bind_star_rejected_by_cpython"] = rejected
     ctx.cov["bind_star_outcome_depends_on_optional_key"] = scen_dep
     ctx.cov["bind_star_disagreements_by_class"] = classes
+    ctx.cov["bind_star_disagreements_outside_known_classes"] = nother
     k = len(cases) // 2
     ctx.sample({"def": sig_src("f", sigs[cases[k][0]]), "call": srcs[k], "mypy_ok": mypy_ok[k], "cpython_ok": cp_full[k][0]})
 
